@@ -569,6 +569,21 @@ neu('N14-get-pca-partial-solver-indexed', ALLP, [('pb_bss/utils.py', "          
 mut('C19-input-interference-total-minus-own', 'C19', SX,
     "    for d in range(D):\n        for k in range(K):\n            I[k, d] = np.sum(\n                S[[n for n in range(K) if n != k], d],\n                axis=0\n            )\n",
     "    I = np.sum(S, axis=0, keepdims=True) - S\n", expect='exclusion-by-subtraction', props=['C19'])
+# ---- fifth pass (round-9 rules)
+VM = D + 'vmfmm.py'
+mut('C09-vmfmm-norm-floor-python-float', 'C09', VM, "np.linalg.norm(y, axis=-1, keepdims=True), np.finfo(y.dtype).tiny\n        )\n        return self._predict(y)",
+    "np.linalg.norm(y, axis=-1, keepdims=True), 1e-300\n        )\n        return self._predict(y)", expect='R-SIGN', props=['C01', 'C09'])
+neu('N15-norm-floor-float32-tiny-constant', ALLP, [(VM, "np.linalg.norm(y, axis=-1, keepdims=True), np.finfo(y.dtype).tiny\n        )\n        return self._predict(y)",
+    "np.linalg.norm(y, axis=-1, keepdims=True), np.finfo(y.dtype).tiny * 1\n        )\n        return self._predict(y)", False)])
+BFM = 'pb_bss/extraction/beamformer.py'
+mut('C12-pca-vector-times-sign-of-first-component', 'C12', BFM, "    eigenvectors, eigenvalues = get_pca(target_psd_matrix)\n    if scaling is None:",
+    "    eigenvectors, eigenvalues = get_pca(target_psd_matrix)\n    eigenvectors = eigenvectors * np.conj(np.sign(eigenvectors[..., :1]))\n    if scaling is None:", expect='eigenvector-times-sign', props=['C12'])
+mut('C13-wmwf-reference-ranked-on-solution', 'C13', BFM, "            reference_channel = get_optimal_reference_channel(\n                filter_, target_psd_matrix, noise_psd_matrix)",
+    "            reference_channel = get_optimal_reference_channel(\n                phi, target_psd_matrix, noise_psd_matrix)", expect='ranked-matrix', props=['C11', 'C13'])
+mut('C16-dhtv-centroid-into-like-buffer', 'C16', PA, "                time_centroid = np.mean(features[:, start:end, :], axis=1)",
+    "                time_centroid = np.mean(features[:, start:end, :], axis=1, out=np.empty_like(features[:, 0, :]))", expect='R-DTYPE', props=['C14', 'C16'])
+neu('N15-dhtv-centroid-into-float-buffer', ALLP, [(PA, "                time_centroid = np.mean(features[:, start:end, :], axis=1)",
+    "                time_centroid = np.mean(features[:, start:end, :], axis=1, out=np.empty(features[:, 0, :].shape))", False)])
 # ---- whole refactorings written by independent sub-agents (14-20 behaviour-preserving edits each, verified bit-identical on
 #      600-900 inputs per patch): every check must stay silent on each of them
 for r, what in (('R1', 'mixture_model_utils / cacgmm / cACG'), ('R2', 'cwmm / cbmm / Watson / Bingham / distribution.utils'), ('R3', 'gmm / gaussian / vMF / gcacgmm / vmfcacgmm'),
